@@ -158,17 +158,25 @@ Proof. vm_compute. repeat split. Qed.
 Theorem C03_delivery_refuted_names : ~ C03_delivery_full.
 Proof.
   intro H.
-  destruct (H ser_inst [] true [V "self" (TNamed "Int")] [("self", PInt 1)] 8
+  destruct (H ser_inst [] true [V "fooBar" (TNamed "Int"); V "foo_bar" (TNamed "Int")] [("foo_bar", PInt 1)] 8
               _ ser_inst_wf eq_refl) as [sent [cs [H1 _]]].
-  - repeat constructor. intros [].
+  - repeat constructor; simpl; intuition discriminate.
   - reflexivity.
   - specialize (H1 8 (le_n 8)). vm_compute in H1. discriminate.
 Qed.
 Print Assumptions C03_delivery_refuted_names.
 
 (* F7: names that break the method *)
+(* $self / $kwargs alone are fine since /repo a558946 (parameter self_ / kwargs_), kept as regression case;
+   but the renamed parameter can now collide with a variable that is already called self_ *)
+Example C03_self_regression :
+  call_method ser_inst 8 [] true [V "self" (TNamed "Int"); V "kwargs" (TNamed "Int")]
+              [("self_", PInt 1); ("kwargs_", PNone)] = Sent [("self", JInt 1); ("kwargs", JNull)].
+Proof. vm_compute. reflexivity. Qed.
+
 Theorem C03_names_refuted_self :
-  call_method ser_inst 8 [] true [V "self" (TNamed "Int")] [("self", PInt 1)] = PySyntaxError.
+  call_method ser_inst 8 [] false [V "self" (TNamed "Int"); V "self_" (TNamed "Int")]
+              [("self_", PInt 1)] = PySyntaxError.
 Proof. vm_compute. reflexivity. Qed.
 
 Theorem C03_names_refuted_collision :
